@@ -174,3 +174,93 @@ Example C04_fault_example :
   jobs s1 = [1] /\ do_ (getn (ns s1) 1) = [1] /\ length (cluster s1) + length (inflight s1) = 1 /\
   jobs s2 = [] /\ length (cluster s2) + length (inflight s2) = 2.
 Proof. vm_compute. repeat split; reflexivity. Qed.
+
+(* ==== the invariant theorems for histories WITH refused run ids
+   (Proofs/SchedFaultInv.v: the farm may hold jobs between events) ==== *)
+From DV Require Import Proofs.SchedFaultInv.
+
+(* PROGRESS with refused requests.  In every history (xrun over list xev), a
+   runnable pending unit is released by the next dispatch even when that
+   dispatch has a run-id request refused: it leaves todo, enters doing, and its
+   task message is queued for / handed to a worker OR its job is held by the farm
+   with the target in its `do` set (the next dispatch sends it:
+   C04_progress_after_faults, C04_dispatch_empties_jobs). *)
+Theorem C04_progress_faults : forall c xs k x t,
+  let s := xrun c (init c) xs in
+  active s = true -> paused s = false -> x < nnodes c ->
+  In t (todo (getn (ns s) x)) -> ~ In t (doing (getn (ns s) x)) ->
+  ~ In ALL (todo (getn (ns s) x)) ->
+  (forall a, In a (anc (gi c x)) ->
+     ~ In t (todo (getn (ns s) a)) /\ ~ In t (doing (getn (ns s) a)) /\
+     ~ In ALL (todo (getn (ns s) a)) /\ ~ In ALL (doing (getn (ns s) a))) ->
+  let s' := fst (xstep c s (TickFault k)) in
+  ~ In t (todo (getn (ns s') x)) /\ In t (doing (getn (ns s') x)) /\
+  ((exists m, In m (cluster s' ++ map snd (inflight s')) /\ m_job m = x /\ m_tgt m = t) \/
+   (In x (jobs s') /\ In t (do_ (getn (ns s') x)))).
+Proof.
+  intros c xs k x t s A P Hx Ht Hd Hna Hanc. cbn [xstep].
+  apply (fault_progress c k s x t (xrun_GInv c xs (init c) (init_GInv c)) A P Hx Ht Hd Hanc).
+  intros H. contradiction.
+Qed.
+Print Assumptions C04_progress_faults.
+
+(* the same for an ORDINARY dispatch at the end of a history with refused
+   requests: full conclusion of C04_progress (the message is made) *)
+Theorem C04_progress_after_faults : forall c xs x t,
+  let s := xrun c (init c) xs in
+  active s = true -> paused s = false -> x < nnodes c ->
+  In t (todo (getn (ns s) x)) -> ~ In t (doing (getn (ns s) x)) ->
+  ~ In ALL (todo (getn (ns s) x)) ->
+  (forall a, In a (anc (gi c x)) ->
+     ~ In t (todo (getn (ns s) a)) /\ ~ In t (doing (getn (ns s) a)) /\
+     ~ In ALL (todo (getn (ns s) a)) /\ ~ In ALL (doing (getn (ns s) a))) ->
+  let s' := fst (xstep c s (Ev Tick)) in
+  ~ In t (todo (getn (ns s') x)) /\ In t (doing (getn (ns s') x)) /\
+  exists m, In m (cluster s' ++ map snd (inflight s')) /\ m_job m = x /\ m_tgt m = t.
+Proof.
+  intros c xs x t s A P Hx Ht Hd Hna Hanc. rewrite xstep_ev. cbn [step].
+  apply (tick_progress_G c s x t (xrun_GInv c xs (init c) (init_GInv c)) A P Hx Ht Hd Hanc).
+  intros H. contradiction.
+Qed.
+Print Assumptions C04_progress_after_faults.
+
+(* all-targets units with refused requests, PARTIAL as C04_progress_all_partial
+   (no upstream node queued) *)
+Theorem C04_progress_all_faults_partial : forall c xs k x,
+  let s := xrun c (init c) xs in
+  active s = true -> paused s = false -> x < nnodes c ->
+  In ALL (todo (getn (ns s) x)) -> ~ In ALL (doing (getn (ns s) x)) ->
+  (forall a, In a (anc (gi c x)) -> ~ In a (que s)) ->
+  let s' := fst (xstep c s (TickFault k)) in
+  ~ In ALL (todo (getn (ns s') x)) /\ In ALL (doing (getn (ns s') x)) /\
+  ((exists m, In m (cluster s' ++ map snd (inflight s')) /\ m_job m = x /\ m_tgt m = ALL) \/
+   (In x (jobs s') /\ In ALL (do_ (getn (ns s') x)))).
+Proof.
+  intros c xs k x s A P Hx Ht Hd Hq. cbn [xstep].
+  pose proof (xrun_GInv c xs (init c) (init_GInv c)) as I. fold s in I.
+  apply (fault_progress c k s x ALL I A P Hx Ht Hd); [|intros _; exact Hq].
+  intros a Ha. destruct I as (_ & Iq & _).
+  assert (E : todo (getn (ns s) a) = [] /\ doing (getn (ns s) a) = []).
+  { split.
+    - destruct (todo (getn (ns s) a)) eqn:E; [reflexivity|]. exfalso. apply (Hq a Ha). apply Iq. left. congruence.
+    - destruct (doing (getn (ns s) a)) eqn:E; [reflexivity|]. exfalso. apply (Hq a Ha). apply Iq. right. congruence. }
+  destruct E as [E1 E2]. rewrite E1, E2. repeat split; intros [].
+Qed.
+Print Assumptions C04_progress_all_faults_partial.
+
+(* non-vacuity: after a refused request a1 is still held; a0 succeeds meanwhile
+   ... here: two independent nodes, the 2nd request of the dispatch is refused:
+   node 0 becomes a message, node 1 is held with its target in `do`; both were
+   runnable and pending before *)
+Example C04_progress_faults_example :
+  let c := {| gnodes := [ {| kids := []; anc := []; gfac := Task; lvl := 0; ins := [] |};
+                          {| kids := []; anc := []; gfac := Task; lvl := 0; ins := [] |} ];
+              gfb := []; gtargets := [1] |} in
+  let xs := [Ev (Reg 1 0 true); Ev (Org [0] None [1]); TickFault 1; Ev (Org [1] None [1])] in
+  let s := xrun c (init c) xs in
+  let s' := fst (xstep c s (TickFault 2)) in
+  active s = true /\ paused s = false /\ jobs s = [0] /\
+  In 1 (todo (getn (ns s) 1)) /\ ~ In 1 (doing (getn (ns s) 1)) /\
+  map (fun p => (m_job (snd p), m_tgt (snd p))) (inflight s') = [(0, 1)] /\
+  jobs s' = [1] /\ do_ (getn (ns s') 1) = [1] /\ doing (getn (ns s') 1) = [1] /\ todo (getn (ns s') 1) = [].
+Proof. vm_compute. repeat split; auto. Qed.
